@@ -87,12 +87,13 @@ func c13Run(r *Run) {
 	var fRaw *types.Var
 	st := bw.Underlying().(*types.Struct)
 	for i := 0; i < st.NumFields(); i++ {
-		if f := st.Field(i); f.Embedded() && isNamed(f.Type(), "net/http", "ResponseWriter") {
+		// the wrapped writer: embedded, or held in a named field
+		if f := st.Field(i); isNamed(f.Type(), "net/http", "ResponseWriter") {
 			fRaw = f
 		}
 	}
 	if fRaw == nil {
-		r.fail("bufferedWriter no longer embeds net/http.ResponseWriter")
+		r.fail("bufferedWriter holds no net/http.ResponseWriter (embedded or as a field)")
 		return
 	}
 	// the state fields are found by their role, not by their names:
@@ -469,6 +470,8 @@ func c13Run(r *Run) {
 			}
 			return true
 		})
+		litParam := map[types.Object]*ast.FuncLit{} // function-typed parameters of the own method being expanded
+		expandDepth := 0
 		h := &Hooks{Info: info}
 		h.CaseMatch = func(tag, val ast.Expr, truth bool, st State) State {
 			s := st.(*hsState)
@@ -588,6 +591,67 @@ func c13Run(r *Run) {
 						n = callee.Name()
 					}
 					rep("C13-OWNER", "raw->"+n, call.Pos(), false, "raw writer handed to "+n+": it can commit or write behind bufferedWriter's back")
+				}
+			}
+			// a function literal bound to a parameter of the own method being expanded: its body runs here
+			if id, ok := ast.Unparen(call.Fun).(*ast.Ident); ok {
+				if lit := litParam[info.Uses[id]]; lit != nil && expandDepth < 4 {
+					expandDepth++
+					sub := *h
+					var outs []hsState
+					sub.Return = func(rs *ast.ReturnStmt, st State) { outs = append(outs, *st.(*hsState)) }
+					sub.End = func(st State) { outs = append(outs, *st.(*hsState)) }
+					cp := *s
+					WalkFunc(&sub, lit.Body, &cp)
+					expandDepth--
+					if len(outs) > 0 {
+						j := outs[0]
+						for i := range outs[1:] {
+							j = *h.Join(&j, &outs[i+1]).(*hsState)
+						}
+						*s = j
+					}
+					return s
+				}
+			}
+			// an own method that is handed a function literal (a guard wrapper: `b.uncommitted(func() { … })`):
+			// the method is walked in the current state with the literal in place of its parameter
+			if callee != nil && methods[callee] != nil && methods[callee] != fd && expandDepth < 4 {
+				cd := methods[callee]
+				var bound []types.Object
+				k := 0
+				for _, f := range cd.Type.Params.List {
+					for _, nm := range f.Names {
+						if k < len(call.Args) {
+							if lit, ok := ast.Unparen(call.Args[k]).(*ast.FuncLit); ok {
+								po := info.Defs[nm]
+								litParam[po] = lit
+								bound = append(bound, po)
+							}
+						}
+						k++
+					}
+				}
+				if len(bound) > 0 {
+					expandDepth++
+					sub := *h
+					var outs []hsState
+					sub.Return = func(rs *ast.ReturnStmt, st State) { outs = append(outs, *st.(*hsState)) }
+					sub.End = func(st State) { outs = append(outs, *st.(*hsState)) }
+					cp := *s
+					WalkFunc(&sub, cd.Body, &cp)
+					expandDepth--
+					for _, po := range bound {
+						delete(litParam, po)
+					}
+					if len(outs) > 0 {
+						j := outs[0]
+						for i := range outs[1:] {
+							j = *h.Join(&j, &outs[i+1]).(*hsState)
+						}
+						*s = j
+					}
+					return s
 				}
 			}
 			// own methods
